@@ -46,6 +46,8 @@ M0(c) ==
     slots    |-> {},            \* <<step, stage>> provided and not yet taken
     stopped  |-> {},            \* steps whose stop condition fired before their execution was spawned
     spawned  |-> {},            \* steps whose execution goroutine was spawned
+    stopPending |-> {},         \* steps that were handed a true stop condition inside the handler that is still running
+    checked  |-> {},            \* steps that passed the point where a fired stop condition still prevents the start
     execLive |-> {},            \* steps whose execution goroutine has not finished
     plugLive |-> {},            \* steps whose plugin code is executing (XExecStart without XExecEnd)
     alive    |-> {},            \* steps whose run goroutine has not exited
@@ -83,7 +85,7 @@ OnKick(mm, e) ==
 
 \* C13: what a loop step reports, against what its item runs returned (Case.subs[step] = per item, in index order)
 SubsOf(s) == IF s \in DOMAIN Case.subs THEN Case.subs[s] ELSE <<>>
-ForeachRules(s, e) ==
+ForeachRules(mm, s, e) ==
   LET subs   == SubsOf(s)
       obs    == Leaves(e.data)
       good   == {k \in DOMAIN subs : subs[k].ok /\ subs[k].id = "success"}
@@ -93,7 +95,19 @@ ForeachRules(s, e) ==
                 ELSE UNION {{<<<<"data", idx(k)>> \o lf.p, lf.v>> : lf \in Range(subs[k].leaves)} : k \in DOMAIN subs}
       errIdx == {o[1][2] : o \in {x \in obs : Len(x[1]) >= 2 /\ x[1][1] = "errors"}}
       datIdx == {o[1][2] : o \in {x \in obs : Len(x[1]) >= 2 /\ x[1][1] = "data"}}
+      \* what each item was scripted to do in isolation: items must not influence each other
+      hasExp == s \in DOMAIN Case.expectItems
+      exp    == IF hasExp THEN Case.expectItems[s] ELSE <<>>
+      expBad == {ToString(k - 1) : k \in {x \in DOMAIN exp : exp[x] # "success"}}
+      expGood == {ToString(k - 1) : k \in {x \in DOMAIN exp : exp[x] = "success"}}
+      scripted ==
+        IF ~hasExp \/ mm.cancelled THEN {}
+        ELSE IF e.prev = "outputs"
+          THEN (IF expBad # {} THEN {<<"C13", "success-reported-although-an-item-was-scripted-to-fail", s>>} ELSE {})
+          ELSE (IF errIdx # expBad THEN {<<"C13", "failure-report-blames-or-omits-items-contrary-to-their-own-outcome", s>>} ELSE {})
+               \cup (IF datIdx # expGood THEN {<<"C13", "failure-report-lacks-the-results-of-items-that-succeed-on-their-own", s>>} ELSE {})
   IN
+  scripted \cup
   IF e.prev = "outputs" THEN
        (IF bad # {} THEN {<<"C13", "success-reported-although-an-item-failed-or-ended-in-a-non-success-output", s>>} ELSE {})
        \cup (IF bad = {} /\ obs # wantOk THEN {<<"C13", "success-data-is-not-the-item-results-in-item-order", s>>} ELSE {})
@@ -129,7 +143,7 @@ OnHEnterS(mm, e) ==
       c7 == IF s \in mm.closedRet THEN {<<"C12", "notification-after-close-returned", s>>} ELSE {}
       c8 == IF e.out # "nil" /\ e.conforms = "n" THEN {<<"C08", "step-output-does-not-match-declared-schema", s \o "." \o e.prev \o "." \o e.out>>} ELSE {}
       c9 == IF known /\ KindOf(WF, s) = "foreach" /\ e.out # "nil" /\ e.prev \in {"outputs", "failed"}
-              THEN ForeachRules(s, e) ELSE {}
+              THEN ForeachRules(mm, s, e) ELSE {}
       node == StageOutNode(s, e.prev, e.out)
       d1 == IF e.out # "nil" THEN mm.data \cup {<<node, x.p, x.v>> : x \in Range(e.data)} ELSE mm.data
   IN  VS([base EXCEPT !.fin = @ \cup {<<s, e.prev>>},
@@ -214,7 +228,8 @@ OnErrPush(mm, e) ==
 OnSProv(mm, e) ==
   IF ~e.ok THEN mm
   ELSE IF e.stage = "cancelled"
-    THEN [mm EXCEPT !.stopped = IF e.step \in mm.spawned THEN @ ELSE @ \cup {e.step}]
+    THEN (IF e.val = "true" /\ e.step \notin mm.checked /\ e.step \notin mm.spawned
+            THEN [mm EXCEPT !.stopPending = @ \cup {e.step}] ELSE mm)
     ELSE [mm EXCEPT !.slots = @ \cup {<<e.step, e.stage>>},
                     !.par = IF e.stage = "execute" THEN @ \cup {<<e.step, e.par>>} ELSE @]
 
@@ -226,6 +241,7 @@ OnSExec(mm, e) ==
          VS([mm EXCEPT !.spawned = @ \cup {e.step}, !.execLive = @ \cup {e.step}],
             (IF e.step \in mm.stopped THEN {<<"C04", "execution-started-after-stop-condition-fired", e.step>>} ELSE {})
             \cup (IF <<e.step, "starting">> \notin mm.provided THEN {<<"C04", "execution-started-without-input", e.step>>} ELSE {}))
+    [] e.op = "check" -> [mm EXCEPT !.checked = @ \cup {e.step}]
     [] e.op = "done" -> [mm EXCEPT !.execLive = @ \ {e.step}]
     [] OTHER -> mm
 
@@ -258,7 +274,9 @@ Dispatch(mm, e) ==
   CASE e.ev = "HEnter" /\ e.h = "K" -> OnKick(mm, e)
     [] e.ev = "HEnter" /\ e.h = "S" -> OnHEnterS(mm, e)
     [] e.ev = "HEnter" /\ e.h = "F" -> OnHEnterF(mm, e)
-    [] e.ev = "HExit"     -> [mm EXCEPT !.h = NoH]
+    \* when the handler that delivered a true stop condition has returned, the step has been told to stop: if it has
+    \* not yet passed its start-time check it must never start
+    [] e.ev = "HExit"     -> [mm EXCEPT !.h = NoH, !.stopped = @ \cup (mm.stopPending \ mm.checked), !.stopPending = {}]
     [] e.ev = "Resolve"   -> ApplyResolve(mm, e.node, e.status)
     [] e.ev = "ResolveErr"-> V(mm, "C12", "engine-reported-resolution-error", e.err)
     [] e.ev = "Pop"       -> OnPop(mm, e)
@@ -280,6 +298,8 @@ Dispatch(mm, e) ==
     [] e.ev = "FItem"     -> OnFItem(mm, e)
     [] e.ev = "SRunCtx"   -> IF e.handler /\ e.step \in mm.plugLive THEN [mm EXCEPT !.mustSignal = @ \cup {e.step}] ELSE mm
     [] e.ev = "SSig"      -> [mm EXCEPT !.sigSent = @ \cup {e.step}]
+    [] e.ev = "SCtx"      -> IF e.why = "cancelStep" /\ e.step \notin mm.checked /\ e.step \notin mm.spawned
+                               THEN [mm EXCEPT !.stopped = @ \cup {e.step}] ELSE mm
     [] e.ev = "Return"    -> OnReturn(mm, e)
     [] OTHER -> mm
 
